@@ -391,6 +391,8 @@ pub fn run(args: &Args) -> i32 {
     let rtabs = crate::rulealpha::Tables::build(&cyc);
     // both ends of the supported range in zones with leap seconds (range checks must be made on the UTC value)
     tl = tl.merge(crate::find::sweep_range_ends(&ctx));
+    // leap tables x offsets at the ends of the i32 range (a bound computed on the wrong scale is off by the correction)
+    tl = tl.merge(crate::find::sweep_leap_extreme(&ctx));
     if !args.digest_mode {
         tl = tl.merge(crate::find::sweep_junction(&ctx, &rtabs, false, true, false));
     }
